@@ -12,7 +12,7 @@ EXPLANATION = (
     "check and the other recursive functions over Tag cover every nested variant, so no infinite type is bound. (R3) "
     "occurs() dominates every union(). Panics justified by type checking are C01; recursion depth, hangs outside the "
     "unifier and process behaviour are not decided.")
-EXPLANATION += ' Further clauses: the domain of R1 includes the code that turns locators from program text or configuration into paths and files; (R4) MEMO-TOTAL, (R5) STATUS-CONV, (R6) CHECK-TOTAL and (R7) ARGS-AGREE (shared C01), (R8) GRAPH-COMPLETE (shared C08/C09: an unseen cycle overflows the stack), (R9) EMIT-TOTAL - variant sets at every call of an emitter function with unreachable!() arms. (R10) RECURSION-SAFE (shared C09.R3/R5). (R11) JOIN-AGREE / LOCATORS (shared C10.R5, C10.R7). (R12) STATUS-LEXEME - every text the status-range token matches has an arm in parse_http_status.'
+EXPLANATION += ' Further clauses: the domain of R1 includes the code that turns locators from program text or configuration into paths and files; (R4) MEMO-TOTAL, (R5) STATUS-CONV, (R6) CHECK-TOTAL and (R7) ARGS-AGREE (shared C01), (R8) GRAPH-COMPLETE (shared C08/C09: an unseen cycle overflows the stack), (R9) EMIT-TOTAL - variant sets at every call of an emitter function with unreachable!() arms. (R10) RECURSION-SAFE (shared C09.R3/R5). (R11) JOIN-AGREE / LOCATORS (shared C10.R5, C10.R7). (R12) STATUS-LEXEME - every text the status-range token matches has an arm in parse_http_status. (R13) GRAMMAR-AGREE (shared C02.R14: a child kind no accessor can cast is met by an expect()). R1 also counts byte-indexed operations on str / String in every non-test function of the workspace, whatever the phase.'
 ASSUMPTIONS = ["logos yields spans inside the input on character boundaries", "LSP clients send ranges with start <= end"]
 TECHNIQUE = "static analysis: panic-sink census over the call graph with a per-symbol allow-list; ADT/HIR recursion coverage; MIR dominance"
 
@@ -20,6 +20,8 @@ PANIC = re.compile(r'(Option::<T>::(unwrap|expect)$|Result::<T, E>::(unwrap|expe
                    r'|^std::rt::begin_panic|panic_fmt|::index$|::index_mut$|^core::slice::index|unwrap_failed|expect_failed'
                    r'|replace_range$|split_at$|split_at_mut$|::remove$|::swap_remove$|::drain$|::split_off$|::truncate$|::insert_str$'
                    r'|RefCell::<T>::borrow(_mut)?$|copy_from_slice$|char::from_u32_unchecked|from_utf8_unchecked|get_unchecked)')
+
+STR_SINK = re.compile(r'(Index::index|IndexMut::index_mut|::split_at|::split_at_mut|String::replace_range|String::insert_str|String::insert|String::truncate|String::drain|String::remove|String::split_off)$')
 
 # remove/drain/... on maps and sets do not panic
 MAP_METHOD = re.compile(r'(HashMap|IndexMap|BTreeMap|HashSet|BTreeSet|IndexSet)::<[^>]*>::(remove|swap_remove|drain|truncate|split_off)$|(HashMap|IndexMap|BTreeMap|HashSet|IndexSet)<.*>::(remove|swap_remove|drain)$')
@@ -105,6 +107,22 @@ def r1_text_panic(c, facts):
                     sinks.setdefault((fn.qname, 'index'), []).append(t['ln'])
                 elif 'DivisionByZero' in m or 'RemainderByZero' in m:
                     sinks.setdefault((fn.qname, 'div-by-zero'), []).append(t['ln'])
+    # byte-indexed operations on str / String panic off a character boundary or out of range wherever they stand: a
+    # text-derived slice (an annotation, an identifier, a message excerpt) taken in a later phase is a text sink too
+    nstr = 0
+    for fn in facts.fns.values():
+        if not fn.mir or fn.id in ids or '::tests::' in fn.qname or fn.qname.split('::')[-1].startswith('test_') or '_tests::' in fn.qname:
+            continue
+        for bi, t in fn.calls():
+            info = callee_of(t)
+            if not info or not STR_SINK.search(info['def']) or not t['args']:
+                continue
+            a0 = t['args'][0].get('ty', '')
+            if re.match(r'&(mut )?(str|std::string::String|String)\b', a0):
+                nstr += 1
+                sinks.setdefault((fn.qname, 'index' if info['def'].endswith(('::index', '::index_mut')) else info['def'].split('::')[-1]), []).append(t['ln'])
+                ids = ids | {fn.id}
+    c.analysed['string_index_sites_outside_the_text_domain'] = nstr
     seen_rows = 0
     strip_cl = lambda q: re.sub(r'::\{closure#\d+\}', '', q)
     owner = lambda q: strip_cl(q).rsplit('::', 1)[0]
@@ -415,4 +433,8 @@ def run(c, facts):
     R10 = c.rule('C04.R10', 'RECURSION-SAFE: a recursive program is either rejected or evaluated without running away: the cycle check is a fix-point that never cuts at an unresolved tag, and every cast that takes schema values takes the recursion marker (shared with C09.R3/R5)')
     c.shared(R10, c09.r3_cut_agree, 'C09.R3', facts)
     c.shared(R10, c09.r5_recursion_is_schema, 'C09.R5', facts)
+    import grammar
+    # a child kind a production attaches but the parent's typed accessors cannot cast is met by an `expect` / `unwrap`
+    # of an accessor (`XferDomain::inner`): a parseable text panics in a later phase
+    c.run(lambda c: grammar.agree(c, facts, 'C04.R13', floor=12))
     panic_census(c, facts)
